@@ -56,13 +56,19 @@ def where_in_repo(exc):
     return loc
 
 
-def guarded_step(rec, built, ic, engine, kw, opts, label, ctx):
-    """Steps with snapshots; returns True if the step completed."""
+def guarded_step(rec, built, ic, engine, kw, opts, label, ctx, via="net", rng=None, only_init=None):
+    """Steps with snapshots; returns True if the step completed.  via: through Network.step or through
+    the element-level calls (a user's own per-element loop)."""
     before_ic = snap_ic(ic)
     before_p = snap_params(built)
     rec.count("guarded_steps")
+    if via != "net":
+        rec.count("guarded_steps_through_element_level_calls")
     try:
-        built.net.step(init_conditions=ic, engine=engine, **opts, **kw)
+        if via == "net":
+            built.net.step(init_conditions=ic, engine=engine, **opts, **kw)
+        else:
+            drive.step_elements(built.net, via, init_conditions=ic, engine=engine, rng=rng, only_init=only_init, **opts, **kw)
     except ValueError as e:
         if "read-only" in str(e) or "readonly" in str(e):
             rec.violation(f"{PROP}:{label}: in-place write into a caller-supplied array at {where_in_repo(e)}",
@@ -112,17 +118,23 @@ def history(M, rec, rng, g, desc):
         vals0 = drive.integerise(vals0)
     opts0 = {o: True for o in ("positive_init_speed", "positive_next_speed", "positive_next_density", "positive_init_queue") if rng.random() < 0.2}
     first_engine = rng.choice(("numpy", "numpy", "SX", "MX"))
+    via = drive.pick_via(rng, 0.3)
+    if via == "elements_shuffled":
+        via = "elements_links_first"  # the order itself must be repeatable for the bitwise comparison
+    if via != "net":
+        rec.count("histories_stepped_through_element_level_calls")
     eng_np = NE()  # one NumPy engine instance for the whole history (as a simulation loop would use)
+    eng_cs = CE(first_engine) if first_engine != "numpy" else None
     ctx = {"desc": desc, "pars": pars, "vals": vals0, "opts": opts0, "first_engine": first_engine}
     symvals = O.SymVals(random.Random(5))
 
     def first_step(b):
         if first_engine == "numpy":
             ic = drive.np_init(b, vals0, "vec1", readonly=True, int_dtype=as_int)
-            ok = guarded_step(rec, b, ic, (eng_np if b is built else NE()), kw, opts0, "numpy", ctx)
+            ok = guarded_step(rec, b, ic, (eng_np if b is built else NE()), kw, opts0, "numpy", dict(ctx, stepped_via=via), via, rng)
             return (drive.read_next(b) if ok else None), ic
         ic, syms = drive.sym_init(M, b, first_engine, symvals, vals0)
-        ok = guarded_step(rec, b, ic, CE(first_engine), kw, opts0, first_engine, ctx)
+        ok = guarded_step(rec, b, ic, (eng_cs if b is built else CE(first_engine)), kw, opts0, first_engine, dict(ctx, stepped_via=via), via, rng)
         return (eval_sym(b, first_engine, symvals) if ok else None), ic
 
     # sometimes the objects already have a past (so leftovers of earlier steps would show)
@@ -144,10 +156,15 @@ def history(M, rec, rng, g, desc):
         return
     # intermediate operations on the same objects
     hist = []
+    last_kind = first_engine  # what kind of variables the elements currently hold
+    kind_after = {"np_other_values": "numpy", "np_other_options": "numpy", "sx": "SX", "mx": "MX", "own_vars": "numpy",
+                  "same_arrays_again": "numpy", "refresh_in_place": "numpy", "elements_other_values": first_engine,
+                  "elements_partial_init": first_engine}
     for _ in range(rng.randint(2, 7)):
         op = rng.choice(("np_other_values", "np_other_options", "sx", "mx", "compile", "own_vars", "same_arrays_again",
-                         "refresh_in_place", "refresh_in_place"))
+                         "refresh_in_place", "refresh_in_place", "elements_other_values", "elements_partial_init"))
         hist.append(op)
+        last_kind_before = last_kind
         try:
             if op in ("np_other_values", "np_other_options"):
                 _, v = g.values(desc, allow_inf=False)
@@ -155,6 +172,18 @@ def history(M, rec, rng, g, desc):
                                        "positive_next_density", "positive_next_queue") if rng.random() < (0.6 if op.endswith("options") else 0.0)}
                 ic = drive.np_init(built, v, rng.choice(("vec1", "0d", "float")), readonly=True)
                 guarded_step(rec, built, ic, NE(), drive.step_pars(g.pars()), o, "numpy", dict(ctx, intermediate=op))
+            elif op in ("elements_other_values", "elements_partial_init"):
+                # a per-element loop with the history's own engine object and other values; in the partial
+                # form only the links are given new values, the other elements keep what they hold
+                _, v = g.values(desc, allow_inf=False)
+                v_via = rng.choice(drive.VIAS[1:])
+                only = list(built.links.values()) if (op.endswith("partial_init") and last_kind == first_engine) else None
+                if first_engine == "numpy":
+                    ic = drive.np_init(built, v, "vec1", readonly=True)
+                    guarded_step(rec, built, ic, eng_np, kw, {}, "numpy", dict(ctx, intermediate=op), v_via, rng, only)
+                else:
+                    ic, _s = drive.sym_init(M, built, first_engine, prefix="e_")
+                    guarded_step(rec, built, ic, eng_cs, kw, {}, first_engine, dict(ctx, intermediate=op), v_via, rng, only)
             elif op in ("sx", "mx"):
                 st = op.upper()
                 ic, _s = drive.sym_init(M, built, st, prefix="h_")
@@ -195,7 +224,11 @@ def history(M, rec, rng, g, desc):
                         tgt.flags.writeable = True
                         tgt[...] = arr_
                         tgt.flags.writeable = False
+            last_kind = kind_after.get(op)
+            if op in ("same_arrays_again", "refresh_in_place") and first_engine != "numpy":
+                last_kind = last_kind_before
         except Exception as e:
+            last_kind = None
             rec.count("intermediate_raised")
             rec.seen("intermediate_raised", repr(e)[:100])
     rec.seen("history_ops", tuple(sorted(set(hist))))
